@@ -61,7 +61,7 @@ Inductive wstep (s s' : sys) : Prop :=
     s_chans s' = s_chans s -> s_tasks s' = s_tasks s -> s_next s' = s_next s -> wstep s s'
 | WMark c : alist_get c (s_entries s) = None -> s_entries s' = alist_set c 0 (s_entries s) ->
     s_chans s' = s_chans s -> s_tasks s' = s_tasks s -> s_next s' = s_next s -> wstep s s'
-| WNew c (b : bool) : s_entries s' = (if b then s_entries s else alist_set c (s_next s) (s_entries s)) ->
+| WNew c (reg b : bool) : s_entries s' = (if reg then alist_set c (s_next s) (s_entries s) else s_entries s) ->
     s_chans s' = (s_next s, b) :: s_chans s -> s_next s' = s_next s + 1 -> wstep s s'
 | WClose : s_entries s' = s_entries s -> map fst (s_chans s') = map fst (s_chans s) ->
     (forall x, In (x, true) (s_chans s) -> In (x, true) (s_chans s')) ->
@@ -70,7 +70,7 @@ Inductive wstep (s s' : sys) : Prop :=
 
 Lemma wstep_inv s s' : wstep s s' -> WInv s -> WInv s'.
 Proof.
-  intros W [Hn Hf Hr]. destruct W as [E1 E2 E3 E4|c E1 E2 E3 E4|c Ec E1 E2 E3 E4|c b E1 E2 E4|E1 E2 _ _ E4].
+  intros W [Hn Hf Hr]. destruct W as [E1 E2 E3 E4|c E1 E2 E3 E4|c Ec E1 E2 E3 E4|c reg b E1 E2 E4|E1 E2 _ _ E4].
   - constructor; rewrite ?E1, ?E2, ?E4; assumption.
   - constructor; rewrite ?E2, ?E4; try assumption. intros c0 ch H. rewrite E1 in H.
     apply alist_get_filter_some in H. now apply (Hr c0).
@@ -81,7 +81,7 @@ Proof.
   - constructor; rewrite ?E2, ?E4.
     + lia.
     + intros x [<-|H]; cbn; [lia|]. specialize (Hf x H). lia.
-    + intros c0 ch H Hne. rewrite E1 in H. cbn [map fst]. destruct b; [right; now apply (Hr c0)|].
+    + intros c0 ch H Hne. rewrite E1 in H. cbn [map fst]. destruct reg; [|right; now apply (Hr c0)].
       destruct (Z.eq_dec c0 c) as [->|N].
       * rewrite alist_get_set_same in H. inversion H. now left.
       * rewrite alist_get_set_other in H by exact N. right. now apply (Hr c0).
@@ -94,7 +94,7 @@ Lemma wstep_closed_stable s s' x : wstep s s' -> WInv s ->
   In (x, true) (s_chans s') /\ ~ In (x, false) (s_chans s').
 Proof.
   intros W [Hn Hf Hr] Ht Hno.
-  destruct W as [E1 E2 E3 E4|c E1 E2 E3 E4|c Ec E1 E2 E3 E4|c b E1 E2 E4|E1 E2 Hc Ho E4]; rewrite ?E2.
+  destruct W as [E1 E2 E3 E4|c E1 E2 E3 E4|c Ec E1 E2 E3 E4|c reg b E1 E2 E4|E1 E2 Hc Ho E4]; rewrite ?E2.
   - tauto.
   - tauto.
   - tauto.
@@ -104,11 +104,17 @@ Proof.
   - split; [now apply Hc|]. intros H. now apply Hno, Ho.
 Qed.
 
-Lemma identify_wait_wstep s c : wstep s (fst (identify_wait s c)).
+Lemma spawn_wstep s c : wstep s (fst (spawn (g_timeout g) s c)).
+Proof.
+  unfold spawn. destruct (g_timeout g =? 0); cbn [fst];
+    [now apply (WNew s _ c true true)|now apply (WNew s _ c true false)].
+Qed.
+
+Lemma identify_wait_wstep s c : wstep s (fst (identify_wait (g_timeout g) s c)).
 Proof.
   unfold identify_wait. destruct (alist_get c (s_entries s)) as [ch|] eqn:E.
-  - destruct (ch =? 0); cbn [fst]; [|now apply WSame]. now apply (WNew s _ c false).
-  - destruct (zin c (s_closed s)); cbn [fst]; [now apply (WNew s _ c true)|now apply (WNew s _ c false)].
+  - destruct (ch =? 0); [apply spawn_wstep|now apply WSame].
+  - destruct (zin c (s_closed s)); [cbn [fst]; now apply (WNew s _ c false true)|apply spawn_wstep].
 Qed.
 
 Lemma finish_task_wstep s ch : wstep s (finish_task s ch).
@@ -126,7 +132,7 @@ Lemma wstep_trans_same s s1 s' : s_entries s1 = s_entries s -> s_chans s1 = s_ch
   s_next s1 = s_next s -> s_closed s1 = s_closed s -> wstep s1 s' -> wstep s s'.
 Proof.
   intros E1 E2 E3 E4 E5 W.
-  destruct W as [F1 F2 F3 F4|c F1 F2 F3 F4|c Fc F1 F2 F3 F4|c b F1 F2 F4|F1 F2 Hc Ho F4];
+  destruct W as [F1 F2 F3 F4|c F1 F2 F3 F4|c Fc F1 F2 F3 F4|c reg b F1 F2 F4|F1 F2 Hc Ho F4];
     rewrite ?E1, ?E2, ?E3, ?E4 in *; [eapply WSame|eapply WForget|eapply WMark|eapply WNew|eapply WClose]; eassumption.
 Qed.
 
@@ -142,20 +148,21 @@ Proof.
   - inversion H. now apply WSame.
   - inversion H. now apply WSame.
   - inversion H. destruct (alist_get c (s_entries s)) as [ch|] eqn:E; [apply identify_wait_wstep|].
-    unfold identify_wait. cbn [s_entries]. rewrite alist_get_set_same, Z.eqb_refl. cbn [fst].
-    apply (WNew s _ c false); cbn; [apply alist_set_set|reflexivity|reflexivity].
+    unfold identify_wait, spawn. cbn [s_entries]. rewrite alist_get_set_same, Z.eqb_refl.
+    destruct (g_timeout g =? 0); cbn [fst];
+      [apply (WNew s _ c true true)|apply (WNew s _ c true false)]; cbn; try reflexivity; apply alist_set_set.
   - destruct (conn_of conns c); inversion H; now apply (WForget s _ c).
-  - destruct (identify_wait s c) as [s1 ch] eqn:W. inversion H. subst.
+  - destruct (identify_wait (g_timeout g) s c) as [s1 ch] eqn:W. inversion H. subst.
     change s' with (fst (s', ch)). rewrite <- W. apply identify_wait_wstep.
   - destruct (negb _); [inversion H; now apply WSame|]. destruct out as [| |cs].
     + inversion H. apply finish_task_wstep.
     + inversion H. apply finish_task_wstep.
-    + destruct (handle_response sym_v id_of_n K conns s c cs false) as [[[s1 calls] evs]|] eqn:Hr.
+    + destruct (handle_response sym_v id_of_n K conns (g_timeout g) s c cs false) as [[[s1 calls] evs]|] eqn:Hr.
       * apply (handle_response_spec g) in Hr. destruct Hr as [cn [m [_ [_ [_ [-> _]]]]]]. inversion H.
         apply (wstep_trans_same s (with_ps s (apply_ops id_of_n K (s_ps s) calls))); try reflexivity.
         apply finish_task_wstep.
       * inversion H. apply finish_task_wstep.
-  - destruct (handle_response sym_v id_of_n K conns s c cs true) as [[[s1 calls] evs]|] eqn:Hr.
+  - destruct (handle_response sym_v id_of_n K conns (g_timeout g) s c cs true) as [[[s1 calls] evs]|] eqn:Hr.
     + apply (handle_response_spec g) in Hr. destruct Hr as [cn [m [_ [_ [_ [-> _]]]]]]. inversion H. now apply WSame.
     + inversion H. subst. now apply WSame.
   - inversion H. apply WClose; cbn; try reflexivity.
@@ -190,13 +197,13 @@ Qed.
 (* a waiter for a connection that still has its channel gets that channel and
    changes nothing; a waiter for a closed connection the service has forgotten
    gets a fresh, already closed channel and starts no task *)
-Lemma waiter_same s c ch : alist_get c (s_entries s) = Some ch -> ch <> 0 -> identify_wait s c = (s, ch).
+Lemma waiter_same s c ch : alist_get c (s_entries s) = Some ch -> ch <> 0 -> identify_wait (g_timeout g) s c = (s, ch).
 Proof.
   intros He Hne. unfold identify_wait. rewrite He. apply Z.eqb_neq in Hne. now rewrite Hne.
 Qed.
 
 Lemma waiter_late s c : WInv s -> alist_get c (s_entries s) = None -> zin c (s_closed s) = true ->
-  let '(s', ch) := identify_wait s c in
+  let '(s', ch) := identify_wait (g_timeout g) s c in
   In (ch, true) (s_chans s') /\ ~ In (ch, false) (s_chans s') /\ s_tasks s' = s_tasks s /\
   s_entries s' = s_entries s.
 Proof.
